@@ -394,7 +394,7 @@ Section XExec.
                     (* an empty array reads as the zero element *)
                     XNext 1 (xsput base x d (repeat 0%Z (nn (ar_ew adata)))) fl
                 | Some len =>
-                    let idx := if is_finite_bits iw then Z.to_N (clampZ (a_trunc A iw) 0 (Z.of_N (len - 1))) else 0 in
+                    let idx := Z.to_N (clampZ (a_trunc A iw) 0 (Z.of_N (len - 1))) in
                     match rd_range (ar_data adata) (idx * ar_ew adata) (ar_ew adata) with
                     | Some vs => XNext 1 (xsput base x d vs) fl
                     | None => XLFault (Dyn DynHandle)
@@ -413,7 +413,7 @@ Section XExec.
                 | None => XLFault (Dyn DynHandle)
                 | Some 0 => XNext 1 x fl                            (* nothing to write into an empty array *)
                 | Some len =>
-                    let idx := if is_finite_bits iw then Z.to_N (clampZ (a_trunc A iw) 0 (Z.of_N (len - 1))) else 0 in
+                    let idx := Z.to_N (clampZ (a_trunc A iw) 0 (Z.of_N (len - 1))) in
                     match xsget_range base x v (ar_ew adata) with
                     | None => XLFault StackReadOOB
                     | Some vs =>
